@@ -338,8 +338,9 @@ package op
 // (the loop itself is a range over an iterator function; Go's protocol around the body is not modelled)
 
 //@ func CircleMember.String returns (s)
-//@   trusted
 //@   pure
+//@   loop 0 invariant i == rangecount() && 0 <= i && len(keys) == len(c.scales)
+//@   loop 0 modifies keys
 
 //@ func KeyConversion.String returns (s)
 //@   trusted
